@@ -17,6 +17,7 @@ type C08Case struct {
 	A    Opnd   `json:"a"`
 	Axes []int  `json:"axes"` // Sum/Max/Min: the axes in call order (empty: none given = all); Arg*: one axis, or [-1] for all
 	Via  string `json:"via"`  // pkg | method
+	Eng  string `json:"eng,omitempty"` // "" | "f32" | "f64": the engine the operand carries
 }
 
 func init() { register("C08.reduce", func() Case { return &C08Case{} }) }
@@ -37,7 +38,7 @@ func (c *C08Case) NTKey() string {
 	if !ok {
 		return ""
 	}
-	return fmt.Sprintf("%s|%s|%v|%v|%v|%s", c.Op, c.DT, c.A.Shape, c.A.L, c.Axes, c.Via)
+	return fmt.Sprintf("%s|%s|%v|%v|%v|%s|%s", c.Op, c.DT, c.A.Shape, c.A.L, c.Axes, c.Via, c.Eng)
 }
 
 func foldFor(op string) func(acc, v interface{}) interface{} {
@@ -70,8 +71,9 @@ func (c *C08Case) Run() string {
 	}
 	rec.Class("layout:" + c.A.L.Kind())
 	t := A.b.T
+	withEngine(t, c.Eng)
 	rank := len(c.A.Shape)
-	desc := fmt.Sprintf("%s(%s via %s) axes %v of shape %v layout %v", c.Op, c.DT, c.Via, c.Axes, c.A.Shape, c.A.L)
+	desc := fmt.Sprintf("%s(%s via %s eng %q) axes %v of shape %v layout %v", c.Op, c.DT, c.Via, c.Eng, c.Axes, c.A.Shape, c.A.L)
 	contiguous := c.A.L.IsContig() && !c.A.L.IsCM()
 	var res tensor.Tensor
 	var lerr error
@@ -396,7 +398,15 @@ func TestC08(t *testing.T) {
 			op, d := op, d
 			cell(t, "C08", "C08.reduce", "long/"+op+"/"+d.Name, nCases(3, 40), func(rt *rapid.T) Case {
 				n := rapid.SampledFrom([]int{255, 256, 257, 290, 511, 513, 1023, 1024, 1025, 1500, 2049, 4100}).Draw(rt, "n")
-				shape := rapid.SampledFrom([][]int{{n}, {2, n}, {n, 2}, {3, n, 1}, {1, n}}).Draw(rt, "shape")
+				shape := rapid.SampledFrom([][]int{{n}, {2, n}, {n, 2}, {3, n, 1}, {1, n}, {2, 3, n}, {2, n, 3}}).Draw(rt, "shape")
+				if len(shape) == 3 && shape[0] == 2 && n > 600 {
+					n = 130 + n%170 // rank 3: a long axis of a few hundred entries is enough
+					for i := range shape {
+						if shape[i] > 3 {
+							shape[i] = n
+						}
+					}
+				}
 				c := &C08Case{Op: op, DT: d.Name, Via: rapid.SampledFrom([]string{"pkg", "method"}).Draw(rt, "via")}
 				c.A = genOpnd(rt, shape, rapid.SampledFrom([]string{"contig", "contig", "lazyT", "materialized"}).Draw(rt, "lk"), -3, 5, 0, "a")
 				// the extreme (for the arg-reductions: its FIRST occurrence) lies deep inside the long axis
@@ -409,18 +419,24 @@ func TestC08(t *testing.T) {
 					ext = 0
 				}
 				stride := prod(shape) / n
-				if len(shape) > 1 && shape[0] == n { // (n,2): the long axis is axis 0
+				switch {
+				case len(shape) > 1 && shape[0] == n: // (n,2): the long axis is axis 0
 					c.A.Codes[pos*stride] = ext
-				} else if len(shape) == 3 {
+				case len(shape) == 3 && shape[1] == n && shape[2] == 1:
 					c.A.Codes[pos] = ext
-				} else {
+				case len(shape) == 3 && shape[1] == n: // (2,n,3)
+					c.A.Codes[pos*3+1] = ext
+				default: // the long axis is the last one
 					c.A.Codes[prod(shape)-n+pos] = ext
 				}
 				switch op {
 				case "Sum", "Max", "Min":
-					if rapid.Bool().Draw(rt, "all") {
+					switch rapid.IntRange(0, 3).Draw(rt, "axesclass") {
+					case 0:
 						c.Axes = nil
-					} else {
+					case 1:
+						c.Axes = genAxesSubset(rt, len(shape)) // several axes, the long one possibly among them
+					default:
 						c.Axes = []int{rapid.IntRange(0, len(shape)-1).Draw(rt, "axis")}
 					}
 				default:
@@ -429,6 +445,22 @@ func TestC08(t *testing.T) {
 					} else {
 						c.Axes = []int{rapid.IntRange(0, len(shape)-1).Draw(rt, "axis")}
 					}
+				}
+				return c
+			})
+		}
+	}
+	// a few hundred elements behind a middle axis (kernels that tile the trailing block)
+	for _, op := range []string{"Sum", "Max", "Min", "Reduce"} {
+		for _, d := range []DT{dtF32, dtF64, dtInt16, dtUint8} {
+			op, d := op, d
+			cell(t, "C08", "C08.reduce", "wide-middle/"+op+"/"+d.Name, nCases(2, 30), func(rt *rapid.T) Case {
+				shape := rapid.SampledFrom([][]int{{2, 3, 16, 17}, {2, 3, 16, 16}, {3, 2, 300}, {2, 4, 257}, {2, 2, 5, 60}}).Draw(rt, "shape")
+				c := &C08Case{Op: op, DT: d.Name, Via: "method"}
+				c.A = genOpnd(rt, shape, rapid.SampledFrom([]string{"contig", "contig", "lazyT"}).Draw(rt, "lk"), 0, 3, 0, "a")
+				c.Axes = []int{rapid.IntRange(0, len(shape)-2).Draw(rt, "axis")}
+				if op != "Reduce" && rapid.Bool().Draw(rt, "two") {
+					c.Axes = append(c.Axes, len(shape)-1)
 				}
 				return c
 			})
